@@ -6,7 +6,8 @@ set of order constraints of the property statement evaluated on the ghost dispat
 Program = (hA, hB, hC, externals, mid)
   three event types A, B, C; A-handlers may fire B, B-handlers may fire C (nesting <= 2)
   hX        = tuple of (handler priority, body); 1 or 2 handlers, distinct priorities
-  body      = 'nop' | 'stop' | ('fire', priority)
+  body      = 'nop' | 'stop' | ('fire', priority) | 'stopgen' (stop, return a generator)
+              | ('refire', 'stopfirst'|'firefirst'|'nostop', priority): queue the SAME event object again, once (re-fire family)
   externals = 1..3 fires (type, priority) issued from outside before the first flush()
   mid       = None | (type, priority): one more external fire between the first and second flush()
 The driver calls flush() until the queue is empty (horizon 12 passes).
@@ -89,6 +90,7 @@ class Run:
         self.meta = {}       # eid -> (typ, prio, fireseq)
         self.passno = 0
         self.current = None
+        self.refired = set()
         nxt = {'A': 'B', 'B': 'C', 'C': None}
         for typ, hs in (('A', h_a), ('B', h_b), ('C', h_c)):
             self.split[typ] = bool(self.mode and len(hs) == 2)
@@ -112,6 +114,18 @@ class Run:
                 event.stop()
                 run.depth -= 1
                 return (x for x in ())
+            elif body[0] == 'refire':
+                # a "not now, look at it again in the next pass" gate: the SAME event object is queued again, once
+                _, how, prio = body
+                if event.eid not in run.refired:
+                    run.refired.add(event.eid)
+                    if how == 'stopfirst':
+                        run.log.append(('stopcall', event.eid, hp))
+                        event.stop()
+                    run.fire_again(event, prio)
+                    if how == 'firefirst':
+                        run.log.append(('stopcall', event.eid, hp))
+                        event.stop()
             elif body != 'nop':
                 run.fire(nxt, body[1], by=event.eid)
             run.depth -= 1
@@ -131,6 +145,15 @@ class Run:
         else:
             self.m.fire(e, priority=prio)
         return e
+
+    def fire_again(self, event, prio):
+        typ = self.meta[event.eid][0]
+        self.log.append(('fire', event.eid, typ, prio, self.passno, event.eid))
+        if self.split.get(typ):
+            chans = ('cx', 'cy') if self.mode == 1 else ('cy', 'cx')
+            self.m.fire(event, *chans, priority=prio)
+        else:
+            self.m.fire(event, priority=prio)
 
     def execute(self):
         _h_a, _h_b, _h_c, externals, mid = self.program
@@ -154,32 +177,35 @@ class Run:
 
 
 def judge(program, log, maxdepth, quiescent):
-    """Oracle: the constraints of the statement on the ghost log.  Returns list of (kind, text)."""
+    """Oracle: the constraints of the statement on the ghost log.  Returns list of (kind, text).
+
+    An event object may be queued more than once (body 'refire'); every queued instance is one dispatch."""
     h_a, h_b, h_c, _ext, _mid = program
     hsets = {'A': h_a, 'B': h_b, 'C': h_c}
     bad = []
-    fired = {}       # eid -> (typ, prio, seq)
-    queued = []      # eids fired and not yet dispatched (ghost)
-    first_disp = {}  # eid -> log index of first handler
-    hruns = {}       # eid -> [hprio...]
-    stops = {}       # eid -> hprio of first stop
-    batch = None     # events queued when the current pass began
+    typ_of = {}
+    queued = []      # instances (eid, prio, seq) fired and not yet dispatched (ghost)
+    dispatches = {}  # eid -> list of dicts {runs: [hprio...], stopped_before: bool, stop: hprio or None}
+    seen_in_pass = set()
+    stops = {}       # eid -> hprio of the first stop() ever called on the object
     batch_pending = None
     in_pass = False
     nontrivial = False
+    nfired = {}
     for idx, ent in enumerate(log):
         k = ent[0]
         if k == 'fire':
             _, eid, typ, prio, _p, by = ent
-            fired[eid] = (typ, prio, eid)
-            queued.append(eid)
+            typ_of[eid] = typ
+            queued.append((eid, prio, idx))
+            nfired[eid] = nfired.get(eid, 0) + 1
             if by is not None:
                 nontrivial = True
         elif k == 'pass':
             in_pass = True
-            batch = list(queued)
-            batch_pending = sorted(batch, key=lambda e: (fired[e][1], fired[e][2]))
-            if len({(fired[e][1]) for e in batch}) > 1:
+            seen_in_pass = set()
+            batch_pending = sorted(queued, key=lambda e: (e[1], e[2]))
+            if len({e[1] for e in queued}) > 1:
                 nontrivial = True
         elif k == 'endpass':
             in_pass = False
@@ -187,51 +213,60 @@ def judge(program, log, maxdepth, quiescent):
             _, eid, hp = ent
             if not in_pass:
                 bad.append(('reentrant', 'handler of e%d ran outside a flush pass (fire() dispatched immediately)' % eid))
-            if eid not in first_disp:
-                first_disp[eid] = idx
-                if eid in queued:
-                    queued.remove(eid)
-                if batch is not None and eid in batch:
-                    # (1) batch order
-                    if batch_pending and batch_pending[0] != eid:
-                        exp = batch_pending[0]
-                        bad.append(('order', 'e%d %r dispatched before e%d %r although both were queued when the pass began'
-                                    % (eid, fired[eid][:2], exp, fired[exp][:2])))
-                    if eid in batch_pending:
-                        batch_pending.remove(eid)
+            if eid not in seen_in_pass:
+                seen_in_pass.add(eid)
+                inst = next((q for q in queued if q[0] == eid), None)
+                if inst is None:
+                    bad.append(('dup', 'e%d dispatched again although no queued instance of it is left' % eid))
                 else:
-                    # (2) fired during this pass (or not part of the batch): all batch events must be done
-                    if batch_pending:
-                        bad.append(('overtake', 'e%d fired during the pass was dispatched before e%d which was queued when the pass began'
-                                    % (eid, batch_pending[0])))
-            hruns.setdefault(eid, []).append(hp)
+                    queued.remove(inst)
+                    if batch_pending is not None and inst in batch_pending:
+                        # (1) batch order
+                        if batch_pending[0] != inst:
+                            exp = batch_pending[0]
+                            bad.append(('order', 'e%d %r dispatched before e%d %r although both were queued when the pass began'
+                                        % (eid, (typ_of[eid], inst[1]), exp[0], (typ_of[exp[0]], exp[1]))))
+                        batch_pending.remove(inst)
+                    else:
+                        # (2) fired during this pass: all batch events must be done
+                        if batch_pending:
+                            bad.append(('overtake', 'e%d fired during the pass was dispatched before e%d which was queued when the pass began'
+                                        % (eid, batch_pending[0][0])))
+                dispatches.setdefault(eid, []).append({'runs': [], 'stopped_before': eid in stops, 'stop': None})
+            dispatches[eid][-1]['runs'].append(hp)
+            if eid in stops and hp < stops[eid]:
+                bad.append(('stop', 'e%d: handler of priority %r ran although priority %r had called stop() on it' % (eid, hp, stops[eid])))
         elif k == 'stopcall':
             _, eid, hp = ent
             stops.setdefault(eid, hp)
+            if dispatches.get(eid) and dispatches[eid][-1]['stop'] is None:
+                dispatches[eid][-1]['stop'] = hp
             nontrivial = True
     if maxdepth > 1:
         bad.append(('reentrant', 'handler nesting depth %d: fire() ran a handler re-entrantly' % maxdepth))
     if not quiescent:
         bad.append(('horizon', 'queue not empty after %d passes' % HORIZON))
-    for eid, (typ, _prio, _seq) in fired.items():
-        runs = hruns.get(eid, [])
+    for eid, typ in typ_of.items():
+        ds = dispatches.get(eid, [])
         allp = sorted((hp for hp, _b in hsets[typ]), reverse=True)
-        if eid in stops:
-            expect = [p for p in allp if p >= stops[eid]]
-        else:
-            expect = allp
-        # a handler body that stops is known statically: the first (highest-priority) stopping handler ends it
-        if runs != expect:
-            if not runs and quiescent:
-                bad.append(('lost', 'e%d (%s) was never dispatched' % (eid, typ)))
-            elif sorted(runs, reverse=True) != runs:
+        if quiescent and len(ds) < nfired[eid]:
+            bad.append(('lost', 'e%d (%s) was queued %d time(s) but dispatched %d time(s)' % (eid, typ, nfired[eid], len(ds))))
+        for d in ds:
+            runs = d['runs']
+            if sorted(runs, reverse=True) != runs:
                 bad.append(('hprio', 'handlers of e%d ran in priority order %r, expected descending' % (eid, runs)))
-            elif len(set(runs)) != len(runs):
-                bad.append(('dup', 'a handler of e%d ran more than once: %r' % (eid, runs)))
-            elif eid in stops and len(runs) > len(expect):
-                bad.append(('stop', 'e%d: handlers %r ran although priority %r called stop()' % (eid, runs, stops[eid])))
-            else:
-                bad.append(('handlers', 'e%d: handlers run %r, expected %r' % (eid, runs, expect)))
+                continue
+            if len(set(runs)) != len(runs):
+                bad.append(('dup', 'a handler of e%d ran more than once in one dispatch: %r' % (eid, runs)))
+                continue
+            if d['stopped_before']:
+                continue     # an already stopped object dispatched again: only "nothing below the stopper" is demanded (checked above)
+            expect = [p for p in allp if p >= d['stop']] if d['stop'] is not None else allp
+            if runs != expect:
+                if d['stop'] is not None and len(runs) > len(expect):
+                    bad.append(('stop', 'e%d: handlers %r ran although priority %r called stop()' % (eid, runs, d['stop'])))
+                else:
+                    bad.append(('handlers', 'e%d: handlers run %r, expected %r' % (eid, runs, expect)))
     return bad, nontrivial
 
 
@@ -294,8 +329,27 @@ def _work(part, nparts, payload):
             for kind, text in bad:
                 st.fail('multichannel:' + kind, text + ' [handlers on channels cx/cy, fired to %s]' % (('cx,cy') if mode == 1 else 'cy,cx'),
                         dict(program_json(program), mode=mode))
+    # re-fire family: a handler queues the SAME event object again (once), before / after / without stop()
+    for i, program in enumerate(itertools.islice(refire_space(tier, h_b, exts, mids), part, None, nparts)):
+        log, maxdepth, quiescent = run_one(program)
+        st.executions += 1
+        st.counters['refire_programs'] += 1
+        st.transitions += sum(1 for e in log if e[0] == 'h')
+        bad, nontrivial = judge(program, log, maxdepth, quiescent)
+        st.outcome(('rf', tuple(e for e in log if e[0] in ('h', 'pass'))))
+        st.interesting(('rf', program))
+        for kind, text in bad:
+            st.fail('refire:' + kind, text + ' [a handler re-fires the event object it is handling]', program_json(program))
     st.states = len(st.outcomes)
     return st
+
+
+def refire_space(tier, h_b, exts, mids):
+    bodies_r = ['nop', 'stop', ('fire', 0)] + [('refire', how, p) for how in ('stopfirst', 'firefirst', 'nostop') for p in (-1, 0, 2)]
+    pairs = [(0, 1)] if tier == 'quick' else [(0, 1), (-1, 2.5)]
+    h_r = [h for h in handler_sets(bodies_r, pairs) if any(isinstance(b, tuple) and b[0] == 'refire' for _p, b in h)]
+    h_b2 = [h_b[0], h_b[-1]]
+    return itertools.product(h_r, h_b2, [((0, 'nop'),)], [x for x in exts if len(x) <= 2], mids[:2])
 
 
 def run(tier, seed, workers):
@@ -307,7 +361,7 @@ def run(tier, seed, workers):
     st = core.parallel(_work, (tier, seed), workers, nparts=workers * 4)
     if l1 != l2:
         st.selfcheck_errors.append('determinism: same program gave two different logs')
-    if st.executions - st.counters['multi_channel_programs'] != total_programs:
+    if st.executions - st.counters['multi_channel_programs'] - st.counters['refire_programs'] != total_programs:
         st.selfcheck_errors.append('enumeration: executed %d of %d programs' % (st.executions, total_programs))
     st.states = len(st.outcomes)
     st.bounds = {'handler_sets_A': len(h_a), 'handler_sets_B': len(h_b), 'handler_sets_C': len(h_c),
